@@ -110,6 +110,7 @@ class Runner:
         self.is_client = subj == "client"
         self.mark = len(pair.observer.packets)
         self.max_pending_crypto = qc.MAX_PENDING_CRYPTO
+        self.max_remote_challenges = qc.MAX_REMOTE_CHALLENGES
         self.crypto_base = pup.crypto_offset("1rtt")
         self.min_in = [int(self.is_client), case["msd"], case["md"], self.crypto_base]
         for p in pair.observer.packets:      # NEW_CONNECTION_ID frames the subject received during the handshake
@@ -277,6 +278,10 @@ class Runner:
                 self.adv_streams[False] = max(self.adv_streams[False], b)
             elif ft == 0x13:
                 self.adv_streams[True] = max(self.adv_streams[True], b)
+        nresp = sum(1 for f in frames if f[0] == 0x1B)
+        if nresp > self.max_remote_challenges:
+            self._fail("%d PATH_RESPONSE frames in one write pass: more than MAX_REMOTE_CHALLENGES challenges were queued" % nresp,
+                       oracle="challenge_queue", count=nresp)
         self.stats["writes"] += 1
         self.stats["limit_frames"] += sum(1 for f in frames if f[0] in (0x10, 0x11, 0x12, 0x13))
 
@@ -563,6 +568,8 @@ def gen_final_size():
             c([["B", [["R", sid, 20], ["S", sid, 10, 10, 1, 0, 1]]]])              # reset then late data within the final size, same packet
             c([["R", sid, 20], ["S", sid, 10, 10, 1, 0, 1]])                       # ... next packet (uni: stream already discarded)
             c([["B", [["R", sid, 20], ["R", sid, 20]]]])                           # duplicate RESET in one packet
+            cases.append(_case(subject, 1000, 700, [["B", [["S", sid, 0, 300, 1, 0, 0]] * 3]], kind="retransmission"))
+            cases.append(_case(subject, 1000, 700, [["S", sid, 100, 300, 1, 0, 1]] * 4 + [["S", sid, 0, 400, 1, 0, 0]] * 2, kind="retransmission"))
     return cases
 
 
@@ -674,6 +681,7 @@ def gen_repetition(rng, thorough=False):
                                                  ["C", 524288 - 1, 2]], kind="crypto"))
         cases.append(_case(subject, 1000, 4000, [["C", 3, 50], ["C", UVM - 10, 11]], kind="crypto"))
         cases.append(_case(subject, 1000, 4000, [["C", 70000, 1000], ["C", 524288, 1]], kind="crypto"))
+        cases.append(_case(subject, 1000, 4000, [["C", 7, 10], ["C", 3000000, 10]], kind="crypto"))
     return cases
 
 
